@@ -11,7 +11,7 @@ def p10b_accept_backoff(ctx):
     fam = prog.family("net::server::Listener::accept")
     b = None
     for x in fam:
-        if calls_in([x], "tokio::net::TcpListener::accept"):
+        if calls_in([x], "tokio::net::TcpListener::accept") and b is None:
             b = x
     f = "net::server::Listener::accept"
     if b is None:
@@ -87,7 +87,7 @@ def p20_shutdown_helper(ctx):
     fam = prog.family("shutdown::Shutdown::recv")
     b = None
     for x in fam:
-        if calls_in([x], "tokio::sync::broadcast::Receiver::recv"):
+        if calls_in([x], "tokio::sync::broadcast::Receiver::recv") and b is None:
             b = x
     f = "shutdown::Shutdown::recv"
     if b is None:
@@ -186,7 +186,7 @@ def s12_config_setters(ctx):
         adds = [(bb, t) for _, bb, t in calls_in([b], "config::ConfigBuilder::add_source", "config::builder::ConfigBuilder::add_source")]
         order = []
         for bb, t in adds:
-            so = origin_str(arg_origin(b, t, 1))
+            so = " ".join(x[1] for x in origin_mentions(arg_origin(b, t, 1), lambda x: x[0] == "call" and x[1])) + " " + origin_str(arg_origin(b, t, 1))
             depth = len(origin_mentions(arg_origin(b, t, 0), lambda x: x[0] == "call" and x[1] and x[1].endswith("add_source")))
             kind = "env" if ("Environment" in so or "with_prefix" in so) else ("file" if ("File" in so or "with_name" in so) else "?")
             order.append((depth, kind))
